@@ -98,6 +98,8 @@ type Round struct {
 	// Hooks build only; without hooks a round with a hold restarts the stub without settling.
 	HoldPrevClose string `json:"hold_prev_close,omitempty"`
 	HoldChunk     int    `json:"hold_chunk,omitempty"`
+	// HandlerErr: the plugin's Synchronize handler fails in this round (errforms_test.go).
+	HandlerErr *ErrPlan `json:"handler_err,omitempty"`
 }
 
 // maxRounds bounds the registrations of one case.
@@ -569,6 +571,9 @@ func genRound(t *rapid.T, kind string) Round {
 	}
 	c.RuntimeFails = rapid.IntRange(0, 4).Draw(t, "runtime-fails") == 0
 	c.Mask = genMask(t)
+	if coin(t, "handler-fails", 2) == 0 {
+		c.HandlerErr = genErrPlan(t)
+	}
 	return c
 }
 
@@ -618,10 +623,12 @@ type observer struct {
 	onAbort   func()
 	roundDone <-chan struct{}
 
-	calls int    // invocations of the plugin's Synchronize handler
-	diff  string // first difference between a delivered state and the runtime's
-	gotP  int
-	gotC  int
+	herr     error // what the handler returns (Round.HandlerErr)
+	herrOnce bool
+	calls    int    // invocations of the plugin's Synchronize handler
+	diff     string // first difference between a delivered state and the runtime's
+	gotP     int
+	gotC     int
 }
 
 func (o *observer) intercept(ctx context.Context, um ttrpc.Unmarshaler, _ *ttrpc.UnaryServerInfo, m ttrpc.Method) (interface{}, error) {
@@ -851,6 +858,9 @@ func (r Round) validate() (roundSizes, error) {
 		r.Mask < 0 || api.EventMask(r.Mask)&^api.ValidEvents != 0 || r.HoldChunk < 0 || r.HoldChunk > 64 {
 		return rs, fmt.Errorf("out of domain")
 	}
+	if r.HandlerErr != nil && !r.HandlerErr.valid() {
+		return rs, fmt.Errorf("out of domain")
+	}
 	switch r.HoldPrevClose {
 	case "", holdStart, holdFirstRequest, holdAfterChunk, holdEnd:
 	default:
@@ -927,7 +937,11 @@ func runOnce(c C09Case) (ev.Outcome, bool) {
 		if o.calls == 1 || o.diff == "" {
 			o.diff, o.gotP, o.gotC = d, len(gp), len(gc)
 		}
+		n := o.calls
 		o.mu.Unlock()
+		if o.herr != nil && (n == 1 || !o.herrOnce) {
+			return nil, o.herr
+		}
 		return o.want, nil
 	}
 	seeProbes(p, func() { f.w.Seen(se.name) })
@@ -982,6 +996,9 @@ func (se *session) runRound(idx int, c Round, rs roundSizes, next *Round) (rr ro
 	se.hist.Rounds = append(se.hist.Rounds, hist)
 	obs := &observer{limitP: 3*len(pods) + 50, limitC: 3*len(ctrs) + 50,
 		pods: pods, ctrs: ctrs, want: want, abortAfter: c.AbortAfter}
+	if c.HandlerErr != nil {
+		obs.herr, obs.herrOnce = c.HandlerErr.build(), c.HandlerErr.Once
+	}
 
 	rr.nonTrivial = sh.Class != "a"
 	rr.classes = []string{
@@ -1177,7 +1194,26 @@ func (se *session) runRound(idx int, c Round, rs roundSizes, next *Round) (rr ro
 	}
 
 	delivered := false // exact delivery established
+	if c.HandlerErr != nil {
+		rr.classes = append(rr.classes, "handler-error")
+	}
 	switch {
+	case c.HandlerErr != nil && calls >= 1:
+		// The handler was reached and its (first) invocation failed: "registration fails
+		// cleanly" - invoked exactly once, with the complete state, and no activation -
+		// whatever the form of the handler's error.
+		form := c.HandlerErr.class()
+		if calls != 1 {
+			return fail("the plugin's Synchronize handler failed (%s) and was then invoked again: %d invocations (last state seen: %d pods, %d containers%s)",
+				form, calls, obs.gotP, obs.gotC, map[bool]string{true: "", false: "; " + diff}[diff == ""])
+		}
+		if diff != "" {
+			return fail("the handler (which then failed, %s) did not get the runtime's state: %s", form, diff)
+		}
+		if s.err == nil {
+			return fail("registration succeeded although the plugin's Synchronize handler failed (%s)", form)
+		}
+		rr.classes = append(rr.classes, "handler-error/"+form, map[bool]string{true: "handler-fails-once", false: "handler-fails-always"}[c.HandlerErr.Once])
 	case s.err == nil:
 		// registration succeeded: for every class this must be an exact delivery
 		if startErr != nil {
@@ -1458,6 +1494,22 @@ func sweepCases() []C09Case {
 	mh2 := round(uniform(1, 100), uniform(9, 480000))
 	mh2.Mask = int(podEventMask)
 	out = append(out, C09Case{Round: aborted(mh, 1), Next: []Round{mh2, mh}})
+	// --- a failing Synchronize handler: unsplit (15 objects) and split, once / always --------
+	for _, st := range []Round{round(uniform(3, 100), uniform(12, 100)), round(uniform(3, 100), uniform(50, 200<<10))} {
+		for _, once := range []bool{true, false} {
+			for _, e := range []ErrPlan{{Form: "status", Code: 8, Text: "resource exhausted"}, {Form: "status", Code: 14, Text: "unavailable"},
+				{Form: "status", Code: 4, Text: "deadline"}, {Form: "bare", Sentinel: "ttrpc.Oversized"}, {Form: "plain", Text: "cannot place"}} {
+				r, e := st, e
+				e.Once = once
+				r.HandlerErr = &e
+				out = append(out, C09Case{Round: r})
+			}
+		}
+	}
+	// ... and the same stub registers again afterwards
+	he := round(uniform(3, 100), uniform(50, 200<<10))
+	he.HandlerErr = &ErrPlan{Form: "status", Code: 8, Text: "resource exhausted", Once: true}
+	out = append(out, C09Case{Round: he, Next: []Round{round(uniform(3, 100), uniform(50, 200<<10))}})
 	// --- the previous session's close notification arrives inside the next session ------------
 	held := func(r Round, kind string, k int) Round { r.HoldPrevClose, r.HoldChunk = kind, k; return r }
 	split3 := round(uniform(3, 100), uniform(40, 200<<10))
